@@ -217,6 +217,7 @@ package types
 //@   ensures nibble:   !OK ==> err != nil
 //@   ensures domain:   OK && !INDOMAIN ==> err != nil
 //@   ensures value:    OK && INDOMAIN ==> err == nil && dyntype(res) == typeid("*types.HHmm") && fresh(R) && R.hours == H && R.minutes == M
+//@   ensures some:     err == nil ==> dyntype(res) == typeid("*types.HHmm") && OK && INDOMAIN
 
 //@ func (PIN).MarshalUT0311L0x
 //@   params p
@@ -277,3 +278,22 @@ package types
 //@   define R = unbox("*types.MacAddress", res)
 //@   ensures value: err == nil && dyntype(res) == typeid("*types.MacAddress") && fresh(R) && len(*R) == 6 && fresh(*R) &&
 //@                    (forall k int :: 0 <= k && k < 6 ==> (*R)[k] == bytes[k])
+
+// ---- thin safety contracts for the run-time-check sweep (C04) --------------------------------
+// Must* constructors panic on a malformed literal by design (documented behaviour).
+
+//@ func MustParseBindAddr
+//@   maypanic
+//@ func MustParseBroadcastAddr
+//@   maypanic
+//@ func MustParseControllerAddr
+//@   maypanic
+//@ func MustParseListenAddr
+//@   maypanic
+//@ func MustParseDate
+//@   maypanic
+
+// a time.Weekday is 0..6 (its callers iterate over the seven weekday constants)
+//@ func abbreviation
+//@   params d
+//@   requires weekday: 0 <= d && d <= 6
